@@ -1,6 +1,7 @@
 package sim
 
 import (
+	"sort"
 	"bytes"
 	"context"
 	"fmt"
@@ -192,6 +193,7 @@ func c15Exchange(r *Run) {
 	var recvErrs []string
 	done := false
 	hsOK := false
+	lateLost := ""
 	r.Go("main", func() {
 		var err error
 		e.cc, err = client.VerifNewClientConnection(e.a, ctx, creds, e.comp, 64, 4, time.Hour, nil)
@@ -271,6 +273,39 @@ func c15Exchange(r *Run) {
 		}
 		wg.Wait()
 		r.Yield("server.joined")
+		if len(recvErrs) == 0 && T.Bool("latereceive", 0.3) {
+			// one more request whose answer has ARRIVED before the connection ends and is only asked for
+			// afterwards: a delivered response stays with its request
+			if req, err := e.cc.Send(queryFrame(e.v, client.ManagedStreamId, "late")); err == nil && req != nil {
+				r.Yield("late.sent")
+				if f, err := e.sc.Receive(); err == nil && f != nil {
+					_ = e.sc.Send(pageFrame(e.v, f.Header.StreamId, "late", 0, 1))
+					for k := 0; k < 200 && !req.IsDone(); k++ {
+						r.Sleep(100 * time.Millisecond)
+					}
+					if req.IsDone() && req.Err() == nil {
+						how := []string{"the client closes the connection", "the server closes its end", "the client's context is cancelled"}[T.Draw("late.end", 3)]
+						switch how[4] {
+						case 'c':
+							if how[11] == 'c' {
+								_ = e.cc.Close()
+							} else {
+								cancel()
+							}
+						default:
+							_ = e.sc.Close()
+						}
+						r.Sleep(2 * time.Second)
+						got, err := e.cc.Receive(req)
+						r.Yield("late.recv")
+						r.Probes["response_asked_for_after_the_connection_ended"]++
+						if err != nil || got == nil || pageTag(got) != "late#0" {
+							lateLost = fmt.Sprintf("a response that had been delivered to its request before %s was not returned by Receive afterwards: frame=%v err=%v", how, got != nil, err)
+						}
+					}
+				}
+			}
+		}
 		done = true
 	})
 	if !r.Drive() {
@@ -279,6 +314,9 @@ func c15Exchange(r *Run) {
 	}
 	if !hsOK {
 		return
+	}
+	if lateLost != "" {
+		r.Violate(P, "exchange", "delivered-response-lost-at-close", "%s (version %v, compression %v)", lateLost, e.v, e.comp)
 	}
 	kinds := []string{}
 	for i := range reqs {
@@ -348,6 +386,16 @@ func c15RawClient(r *Run) {
 	e := c15Setup(r)
 	T := r.T
 	n := 1 + T.Draw("nreq", 8)
+	// handler mode: the server connection is driven by request handlers only (handshake handler + an
+	// echoing handler) and nobody calls Receive, as in the library's own handler tests; the connection
+	// sees more frames over its lifetime than its MaxInFlight (the size of the Receive queue)
+	handlerMode := T.Bool("handlermode", 0.3)
+	srvMaxInFlight := 64
+	if handlerMode {
+		srvMaxInFlight = 2 + T.Draw("handlermode.maxinflight", 6)
+		n = srvMaxInFlight + T.Draw("handlermode.extra", 8)
+	}
+	r.Config["server_mode"] = map[bool]string{false: "application calls Receive", true: fmt.Sprintf("request handlers only, MaxInFlight %d", srvMaxInFlight)}[handlerMode]
 	r.Config["requests"] = fmt.Sprint(n)
 	ctx, cancel := context.WithCancel(context.Background())
 	peer := NewRawPeer(r, e.a, versionByte(e.v))
@@ -370,14 +418,31 @@ func c15RawClient(r *Run) {
 	var respEnvs []RFrame
 	r.Go("main", func() {
 		var err error
-		e.sc, err = client.VerifNewServerConnection(e.b, ctx, nil, 64, 10*time.Hour, nil, nil, func(*client.CqlServerConnection) {})
+		var handlers []client.RequestHandler
+		if handlerMode {
+			served := 0
+			handlers = []client.RequestHandler{client.HandshakeHandler, func(req *frame.Frame, _ *client.CqlServerConnection, _ client.RequestHandlerContext) *frame.Frame {
+				q, ok := req.Body.Message.(*message.Query)
+				if !ok {
+					return nil
+				}
+				got = append(got, q.Query)
+				served++
+				return pageFrame(e.v, req.Header.StreamId, fmt.Sprintf("rq%d", req.Header.StreamId-1), 0, 1)
+			}}
+		}
+		e.sc, err = client.VerifNewServerConnection(e.b, ctx, nil, srvMaxInFlight, 10*time.Hour, handlers, nil, func(*client.CqlServerConnection) {})
 		if err != nil {
 			return
 		}
 		r.Cleanup(func() { _ = e.sc.Close(); cancel(); _ = e.a.Close() })
 		hs := make(doneChan)
 		var hsErr error
-		r.Go("hsServer", func() { defer close(hs); hsErr = e.sc.AcceptHandshake(); r.Yield("hs.s") })
+		if handlerMode {
+			close(hs) // the handshake handler answers STARTUP
+		} else {
+			r.Go("hsServer", func() { defer close(hs); hsErr = e.sc.AcceptHandshake(); r.Yield("hs.s") })
+		}
 		err = peer.ClientHandshake(compName(e.comp), 1)
 		r.Yield("hs.c")
 		<-hs
@@ -390,6 +455,9 @@ func c15RawClient(r *Run) {
 		wg.Add(1)
 		r.Go("server", func() {
 			defer wg.Done()
+			if handlerMode {
+				return
+			}
 			for i := 0; i < n; i++ {
 				f, err := e.sc.Receive()
 				r.Yield("srv.recv")
@@ -410,9 +478,28 @@ func c15RawClient(r *Run) {
 			}
 		})
 		// the raw client sends its envelopes in drawn batches (one SendEnvelopes call = one packing decision)
+		readOne := func(j int) bool {
+			f, err := peer.ReadFrame()
+			r.Yield("raw.recv")
+			if err != nil {
+				errs = append(errs, fmt.Sprintf("raw client read #%d: %v", j, err))
+				return false
+			}
+			body, err := peer.DecodeBody(f)
+			if err != nil {
+				errs = append(errs, fmt.Sprintf("raw client body #%d: %v", j, err))
+				return false
+			}
+			f.Body = body
+			respEnvs = append(respEnvs, f)
+			return true
+		}
 		i := 0
 		for i < n {
 			k := 1 + T.Draw("batch", 4)
+			if handlerMode && k > srvMaxInFlight {
+				k = srvMaxInFlight // never more outstanding requests than the server's queues hold
+			}
 			if i+k > n {
 				k = n - i
 			}
@@ -425,23 +512,22 @@ func c15RawClient(r *Run) {
 				break
 			}
 			r.Yield("raw.sent")
+			if handlerMode {
+				// the answers to this window before the next one is sent
+				for j := i; j < i+k && len(errs) == 0; j++ {
+					readOne(j)
+				}
+				if len(errs) > 0 {
+					break
+				}
+			}
 			i += k
 		}
 		// read the n responses back
-		for j := 0; j < n && len(errs) == 0; j++ {
-			f, err := peer.ReadFrame()
-			r.Yield("raw.recv")
-			if err != nil {
-				errs = append(errs, fmt.Sprintf("raw client read #%d: %v", j, err))
+		for j := 0; !handlerMode && j < n && len(errs) == 0; j++ {
+			if !readOne(j) {
 				break
 			}
-			body, err := peer.DecodeBody(f)
-			if err != nil {
-				errs = append(errs, fmt.Sprintf("raw client body #%d: %v", j, err))
-				break
-			}
-			f.Body = body
-			respEnvs = append(respEnvs, f)
 		}
 		wg.Wait()
 		r.Yield("server.joined")
@@ -462,7 +548,26 @@ func c15RawClient(r *Run) {
 	} else if !done {
 		r.Violate(P, "liveness", "stuck:rawclient", "raw client -> real server exchange did not finish (version %v, compression %v): delivered %d of %d", e.v, e.comp, len(got), n)
 	}
+	if handlerMode {
+		// handlers run concurrently: order of arrival at the handler and of the responses is free
+		sort.Strings(got)
+		sort.Slice(respEnvs, func(a, b int) bool { return respEnvs[a].H.Stream < respEnvs[b].H.Stream })
+		want := make([]string, 0, len(plan))
+		for _, p := range plan[:minInt(len(plan), len(got))] {
+			want = append(want, p.query)
+		}
+		sort.Strings(want)
+		for i := range got {
+			if got[i] != want[i] {
+				r.Violate(P, "equality", "rawclient-request-differs", "the requests handed to the server's request handler are not the requests the raw client sent (first difference in sorted order at %d)", i)
+				break
+			}
+		}
+	}
 	for i := range got {
+		if handlerMode {
+			break
+		}
 		if got[i] != plan[i].query {
 			r.Violate(P, "equality", "rawclient-request-differs", "request %d sent by the raw client (%d bytes) was delivered to the server application as %d bytes / different content or out of order", i, len(plan[i].query), len(got[i]))
 			break
